@@ -261,7 +261,7 @@ func pickBehaviour(r *rand.Rand, mangles []string, pPass int) Behaviour {
 
 var injectKinds = []string{
 	"complaint", "dup-complaint", "early-answer-valid", "early-answer-wrong", "answer-twice", "second-vector-same", "second-vector-diff",
-	"answer-burst", "late-share", "late-share-wrong", "late-vector", "empty-bcast", "unknown-tag", "share-tag-on-bcast", "bcast-tag-on-private", "random-bcast", "random-private",
+	"answer-burst", "late-share", "late-share-wrong", "second-share", "second-share-wrong", "late-vector", "empty-bcast", "unknown-tag", "share-tag-on-bcast", "bcast-tag-on-private", "random-bcast", "random-private",
 }
 
 func (s *Sim) drawScript(b int) *Script {
@@ -359,6 +359,11 @@ func (s *Sim) drawScript(b int) *Script {
 			if r.IntN(10) < 3 {
 				k := []string{"empty-bcast", "unknown-tag", "share-tag-on-bcast", "second-vector-diff", "second-vector-same", "random-bcast"}[r.IntN(6)]
 				sc.Inject = append(sc.Inject, Injection{Round: 1 + r.IntN(3), Kind: k, A: j, B: r.IntN(s.Sc.N)})
+			}
+			// a SECOND private message to the victim in round 1 (the first one may have been malformed,
+			// answered and replaced by then)
+			if r.IntN(10) < 3 {
+				sc.Inject = append(sc.Inject, Injection{Round: 1, Kind: []string{"second-share", "second-share-wrong", "second-share-wrong"}[r.IntN(3)], A: j})
 			}
 			// a share (right or wrong) that reaches the victim after the shares timeout, around its own
 			// complaint and the dealer's answer
@@ -838,6 +843,17 @@ func (s *Sim) inject() {
 						w = alt
 					}
 					s.pushPrivate(b, target, w, max(2, s.round), true, lbl)
+				}
+			case "second-share", "second-share-wrong":
+				// a second private message of the dealer to the same participant, in the round it is
+				// injected in (round 1: before the shares timeout, competing with the first one, with the
+				// participant's complaint and with the dealer's answer)
+				if sh := n.shares[target]; sh != nil && target != b {
+					w := sh
+					if in.Kind == "second-share-wrong" {
+						w = s.mangleShare(sh, "plus1")
+					}
+					s.pushPrivate(b, target, w, s.round, true, lbl)
 				}
 			case "late-vector":
 				if n.vector != nil {
